@@ -23,6 +23,7 @@
   model.
 -/
 import CM.Proofs.CacheCorrect
+import CM.Proofs.Decode
 namespace CM.C04
 open CM
 
@@ -55,6 +56,23 @@ theorem transparent_along_history (F : Fam) (w : World) (h : Reach F w) (c : Cal
     (hrun : c.g.call c.env (prepare w c) fuel = some (.done x s, steps)) :
     ∃ v, x = .val v ∧ vden c.g (denCfgOf c.env (prepare w c)) = .ok v :=
   history_values F w h c fuel steps x s ok hc hF hrun
+
+/-- **Unconditional for disk caches of plain pipelines.**  With the faithfulness of hashes proved (C05) instead of
+assumed: for every family of plain pipelines (no Silent arguments, no CheckIds) sharing empty disk stores, after
+every history whatever a call returns is its cache-free value. -/
+theorem disk_caches_transparent (F : Fam) (hF : ∀ g d, F g d → Plain g d) (w0 : World)
+    (hw0 : ∀ (s : Nat) (st : MemStore), w0.stores[s]? = some st → st.exact = true ∧ st.table = [])
+    :
+    StoreSound F w0 ∧
+    ∀ (w : World), Reach F w → ∀ (c : CallSpec) (fuel steps : Nat) (x : Item) (s : St), GraphOKC c.g → CallOK c.g c.env →
+      F c.g (denCfgOf c.env (prepare w c)) → c.g.call c.env (prepare w c) fuel = some (.done x s, steps) →
+      ∃ v, x = .val v ∧ vden c.g (denCfgOf c.env (prepare w c)) = .ok v := by
+  have hs0 : StoreSound F w0 := by
+    intro s st hst
+    obtain ⟨hex, htab⟩ := hw0 s st hst
+    rw [hex, htab]
+    exact ⟨fun p hp => (by cases hp), faithful_exact F hF⟩
+  exact ⟨hs0, fun w hr c fuel steps x s ok hc hFc hrun => history_values F w hr c fuel steps x s ok hc hFc hrun⟩
 
 /-! ### non-vacuity -/
 
